@@ -100,6 +100,25 @@ mod dq {
             Ok(())
         }
     }
+    /// supervisor recording the terminal events of its children
+    pub struct Sup;
+    pub type Terms = Arc<Mutex<Vec<String>>>;
+    impl Actor for Sup {
+        type Msg = ();
+        type State = Terms;
+        type Arguments = Terms;
+        async fn pre_start(&self, _: ActorRef<()>, a: Terms) -> Result<Terms, ActorProcessingErr> {
+            Ok(a)
+        }
+        async fn handle_supervisor_evt(&self, _: ActorRef<()>, m: ractor::SupervisionEvent, s: &mut Terms) -> Result<(), ActorProcessingErr> {
+            match m {
+                ractor::SupervisionEvent::ActorTerminated(_, _, r) => s.lock().unwrap().push(format!("terminated:{}", r.unwrap_or_else(|| "none".to_string()))),
+                ractor::SupervisionEvent::ActorFailed(_, _) => s.lock().unwrap().push("failed".to_string()),
+                _ => {}
+            }
+            Ok(())
+        }
+    }
     #[derive(Default)]
     pub struct RecTl;
     impl ractor::thread_local::ThreadLocalActor for RecTl {
@@ -128,13 +147,15 @@ pub fn dequeue(a: &Args) {
     let tl = a.u64("tl") == 1;
     let rt = tokio::runtime::Builder::new_multi_thread().worker_threads(2).enable_all().build().unwrap();
     let log: dq::Log = Default::default();
+    let terms: dq::Terms = Default::default();
+    let (sup, sup_handle) = rt.block_on(async { dq::Sup::spawn(None, dq::Sup, terms.clone()).await.unwrap() });
     let (actor, handle): (ractor::ActorRef<u64>, ractor::concurrency::JoinHandle<()>) = rt.block_on(async {
         if tl {
             use ractor::thread_local::ThreadLocalActor;
             let spawner = ractor::thread_local::ThreadLocalActorSpawner::new();
-            dq::RecTl::spawn(None, (log.clone(), yields), spawner).await.unwrap()
+            dq::RecTl::spawn_linked(None, (log.clone(), yields), sup.get_cell(), spawner).await.unwrap()
         } else {
-            dq::Rec::spawn(None, dq::Rec { yields }, log.clone()).await.unwrap()
+            dq::Rec::spawn_linked(None, dq::Rec { yields }, log.clone(), sup.get_cell()).await.unwrap()
         }
     });
     let mut joins = Vec::new();
@@ -169,8 +190,93 @@ pub fn dequeue(a: &Args) {
         let _ = actor.drain();
     }
     let ended = rt.block_on(async { tokio::time::timeout(std::time::Duration::from_secs(20), handle).await.is_ok() });
+    // let the supervisor see the terminal event, then stop it
+    rt.block_on(async {
+        for _ in 0..200 {
+            if !terms.lock().unwrap().is_empty() || !ended {
+                break;
+            }
+            tokio::time::sleep(std::time::Duration::from_millis(5)).await;
+        }
+        sup.stop(None);
+        let _ = tokio::time::timeout(std::time::Duration::from_secs(5), sup_handle).await;
+    });
+    println!("terms={}", terms.lock().unwrap().join(","));
     println!("ended={}", ended as u8);
     println!("sent_ok={}", sent.iter().filter(|x| x.1).map(|x| x.0.to_string()).collect::<Vec<_>>().join(","));
     println!("sent_err={}", sent.iter().filter(|x| !x.1).map(|x| x.0.to_string()).collect::<Vec<_>>().join(","));
     println!("handled={}", log.lock().unwrap().iter().map(|x| x.to_string()).collect::<Vec<_>>().join(","));
+}
+
+/// C03 request slice: a stop / kill requested while a handler is parked (optionally after a drain was requested, with a backlog queued) - no further handler
+/// starts once the request has returned; stop lets the running handler finish and reports its reason, kill does not.
+mod rq {
+    use ractor::{Actor, ActorProcessingErr, ActorRef};
+    use std::sync::{Arc, Mutex};
+    pub type Log = Arc<Mutex<Vec<String>>>;
+    pub struct Gated {
+        pub gate: Arc<tokio::sync::Semaphore>,
+    }
+    impl Actor for Gated {
+        type Msg = u64;
+        type State = Log;
+        type Arguments = Log;
+        async fn pre_start(&self, _: ActorRef<u64>, a: Log) -> Result<Log, ActorProcessingErr> {
+            Ok(a)
+        }
+        async fn handle(&self, _: ActorRef<u64>, m: u64, s: &mut Log) -> Result<(), ActorProcessingErr> {
+            s.lock().unwrap().push(format!("s{}", m));
+            self.gate.acquire().await.unwrap().forget();
+            s.lock().unwrap().push(format!("e{}", m));
+            Ok(())
+        }
+        async fn post_stop(&self, _: ActorRef<u64>, s: &mut Log) -> Result<(), ActorProcessingErr> {
+            s.lock().unwrap().push("post_stop".to_string());
+            Ok(())
+        }
+    }
+}
+
+pub fn request(a: &Args) {
+    use ractor::Actor;
+    let mode = a.str("mode").to_string();
+    let drain = a.u64("drain") == 1;
+    let rt = tokio::runtime::Builder::new_multi_thread().worker_threads(2).enable_all().build().unwrap();
+    let log: rq::Log = Default::default();
+    let terms: dq::Terms = Default::default();
+    let gate = std::sync::Arc::new(tokio::sync::Semaphore::new(0));
+    let (sup, sup_handle) = rt.block_on(async { dq::Sup::spawn(None, dq::Sup, terms.clone()).await.unwrap() });
+    let (actor, handle) = rt.block_on(async { rq::Gated::spawn_linked(None, rq::Gated { gate: gate.clone() }, log.clone(), sup.get_cell()).await.unwrap() });
+    for m in 1..=3u64 {
+        actor.cast(m).unwrap();
+    }
+    let t0 = std::time::Instant::now();
+    while !log.lock().unwrap().iter().any(|l| l == "s1") && t0.elapsed() < std::time::Duration::from_secs(5) {
+        std::thread::yield_now();
+    }
+    if drain {
+        let _ = actor.drain();
+    }
+    match mode.as_str() {
+        "stop" => actor.stop(Some("the-reason".to_string())),
+        _ => actor.kill(),
+    }
+    let at_request = log.lock().unwrap().len();
+    gate.add_permits(8);
+    let ended = rt.block_on(async { tokio::time::timeout(std::time::Duration::from_secs(10), handle).await.is_ok() });
+    rt.block_on(async {
+        for _ in 0..200 {
+            if !terms.lock().unwrap().is_empty() || !ended {
+                break;
+            }
+            tokio::time::sleep(std::time::Duration::from_millis(5)).await;
+        }
+        sup.stop(None);
+        let _ = tokio::time::timeout(std::time::Duration::from_secs(5), sup_handle).await;
+    });
+    let l = log.lock().unwrap().clone();
+    println!("ended={}", ended as u8);
+    println!("starts_after={}", l[at_request..].iter().filter(|x| x.starts_with('s')).count());
+    println!("log={}", l.join(","));
+    println!("terms={}", terms.lock().unwrap().join(","));
 }
